@@ -480,8 +480,10 @@ def run_property(pid, spec, tier, seed, only=None, jobs=0):
                     continue
                 mine, foreign = [], []
                 for f in parsed["failed"]:
-                    tag = re.match(r'^"?(C\d\d)\b', f["desc"])
-                    (foreign if tag and tag.group(1) != pid else mine).append(f)
+                    # a message may state several properties at once: "C04/C19 ..."
+                    tm = re.match(r'^"?((?:C\d\d[/, ]*)+)', f["desc"])
+                    tags = re.findall(r"C\d\d", tm.group(1)) if tm else []
+                    (foreign if tags and pid not in tags else mine).append(f)
                 if foreign:
                     sample["failed_other_property"] = [f["desc"] for f in foreign]
                 if not mine:
